@@ -91,3 +91,54 @@ Definition q_run (st : qstate) (ops : list qop) : qstate := fold_left q_step ops
 
 Definition q_sends (ops : list qop) : list (list N) :=
   flat_map (fun o => match o with QSend l => [l] | QTick => [] end) ops.
+
+(** [connectionLost] leaves the queue and its timer alone; [connectionMade] (reconnect of the same
+    client object on a new transport) starts with an empty queue -- but the timer, armed or not,
+    is carried over: a timer still pending from the old connection delays the first line of the new
+    one and then drains the NEW queue.  The lines written so far stay with the old transport. *)
+Definition q_connect (st : qstate) : qstate := mkQ [] [] (q_timer st).
+
+(** ---------------------------------------------------------------- CTCP messages
+    [ctcpStringify] / [ctcpExtract] on lists of (tag, data) with data = None | Some text *)
+Definition xmsg := (list N * option (list N))%type.
+
+(** "tag data" when data is a non-empty string, else the tag alone *)
+Definition ctcp_body (m : xmsg) : list N :=
+  match snd m with
+  | Some (d :: ds) => fst m ++ [32] ++ d :: ds
+  | _ => fst m
+  end.
+
+Definition ctcp_stringify (msgs : list xmsg) : list N :=
+  flat_map (fun m => [1] ++ ctcpQuote (ctcp_body m) ++ [1]) msgs.
+
+(** [s.split(sep)] for a one-character separator *)
+Fixpoint split_on_aux (sep : N) (cur s : list N) : list (list N) :=
+  match s with
+  | [] => [cur]
+  | c :: r => if c =? sep then cur :: split_on_aux sep [] r else split_on_aux sep (cur ++ [c]) r
+  end.
+
+(** X1 extended X2 normal X3 extended ...: (normal, extended) *)
+Fixpoint alternate (odd : bool) (l : list (list N)) : list (list N) * list (list N) :=
+  match l with
+  | [] => ([], [])
+  | x :: r => let (n, e) := alternate (negb odd) r in if odd then (n, x :: e) else (x :: n, e)
+  end.
+
+Definition nonempty (l : list N) : bool := match l with [] => false | _ => true end.
+
+(** [m = s.split(SPC, 1)]: tag, and the data if there is a space *)
+Fixpoint split_first_space (cur s : list N) : xmsg :=
+  match s with
+  | [] => (cur, None)
+  | c :: r => if c =? 32 then (cur, Some r) else split_first_space (cur ++ [c]) r
+  end.
+
+(** (extended, normal) *)
+Definition ctcp_extract (message : list N) : list xmsg * list (list N) :=
+  let (n, e) := alternate false (split_on_aux 1 [] message) in
+  (map (fun x => split_first_space [] (ctcpDequote x)) (filter nonempty e), filter nonempty n).
+
+(** what comes back: empty data is indistinguishable from absent data *)
+Definition ctcp_norm (m : xmsg) : xmsg := (fst m, match snd m with Some [] => None | d => d end).
